@@ -2,6 +2,8 @@ package rules
 
 import (
 	"fmt"
+	"go/constant"
+	"go/token"
 	"go/types"
 
 	"golang.org/x/tools/go/ssa"
@@ -15,12 +17,84 @@ import (
 
 func init() {
 	Register(&Rule{ID: "R-ERR-8", Props: []string{"C19"}, Floor: 3,
-		Doc:      "in every default arm of a type switch (code reached only through failed comma-ok type assertions of an interface value), a method invoked on the switched value requires nil to be excluded: by a dominating nil test / `case nil`, or because every caller passes a value that is provably non-nil",
-		Controls: []string{"ctlDescribe"},
+		Doc:      "in every default arm of a type switch (code reached only through failed comma-ok type assertions of an interface value), a method invoked on the switched value requires nil to be excluded: by a dominating nil test / `case nil`, or because every caller passes a value that is provably non-nil; an element of a slice (switched once through a bound variable or re-indexed in every arm) is reported when a value with a nil origin is put into that slice here or by a caller",
+		Controls: []string{"ctlDescribe", "ctlElemBound", "ctlElemInline"},
 		Run:      ruleErr8})
 }
 
-// failedAssertsOn: number of dominating facts "x.(T) failed" and whether any
+// elemLoad: v is a load `*(&s[i])` of an element of a slice / array; returns the address.
+func elemLoad(v ssa.Value) *ssa.IndexAddr {
+	u, ok := v.(*ssa.UnOp)
+	if !ok || u.Op != token.MUL {
+		return nil
+	}
+	ia, _ := u.X.(*ssa.IndexAddr)
+	return ia
+}
+
+// elemLoadOf: x is, through local variables and conversions, one element load.
+func elemLoadOf(x ssa.Value) *ssa.IndexAddr {
+	os := core.Origins(x, false)
+	if len(os) != 1 {
+		return nil
+	}
+	return elemLoad(os[0])
+}
+
+// sameSwitched: a and b denote the same switched value: the same SSA value, two
+// loads of the same cell / field, or two loads of the same element — `s[i]`
+// spelled twice with the same container and the same index value, while the
+// function stores into no element of that container (a type switch written
+// `switch s[i].(type) { … default: s[i].M() }` re-loads the element in every
+// arm; `switch v := s[i].(type)` loads it once).
+func sameSwitched(a, b ssa.Value) bool {
+	if a == b || core.SameCell(a, b) {
+		return true
+	}
+	ia, ib := elemLoad(a), elemLoad(b)
+	if ia == nil || ib == nil {
+		return false
+	}
+	if !(ia.X == ib.X || core.SameCell(ia.X, ib.X)) {
+		return false
+	}
+	if ia.Index != ib.Index {
+		ca, okA := ia.Index.(*ssa.Const)
+		cb, okB := ib.Index.(*ssa.Const)
+		if !okA || !okB || ca.Value == nil || cb.Value == nil || ca.Value.ExactString() != cb.Value.ExactString() {
+			return false
+		}
+	}
+	return !storesIntoElements(ia)
+}
+
+// storesIntoElements: the function of ia stores through some element address of
+// the same container.
+func storesIntoElements(ia *ssa.IndexAddr) bool {
+	for _, b := range ia.Parent().Blocks {
+		for _, in := range b.Instrs {
+			st, ok := in.(*ssa.Store)
+			if !ok {
+				continue
+			}
+			if other, ok := st.Addr.(*ssa.IndexAddr); ok && (other.X == ia.X || core.SameCell(other.X, ia.X)) {
+				return true
+			}
+		}
+	}
+	return false
+}
+
+// switchedLabel names the switched value in obligation keys; an element is named
+// after its container so that both spellings of the switch get the same key.
+func switchedLabel(x ssa.Value) string {
+	if ia := elemLoadOf(x); ia != nil {
+		return "element of " + valueLabel(ia.X)
+	}
+	return valueLabel(x)
+}
+
+// typeSwitchFacts: number of dominating facts "x.(T) failed" and whether any
 // assertion on x succeeded on this path.
 func typeSwitchFacts(x ssa.Value, at ssa.Instruction) (failed int, succeeded bool) {
 	for _, f := range core.FactsAt(at.Block()) {
@@ -29,7 +103,7 @@ func typeSwitchFacts(x ssa.Value, at ssa.Instruction) (failed int, succeeded boo
 			continue
 		}
 		ta, ok := ex.Tuple.(*ssa.TypeAssert)
-		if !ok || !ta.CommaOk || !(ta.X == x || core.SameCell(ta.X, x)) {
+		if !ok || !ta.CommaOk || !sameSwitched(ta.X, x) {
 			continue
 		}
 		if f.Neg {
@@ -69,7 +143,7 @@ func ruleErr8(c *Ctx) {
 			if failed < 2 || ok {
 				continue // not a default arm of a type switch over x
 			}
-			key := c.KeyAt(fn, fmt.Sprintf("%s() on %s in a type-switch default", com.Method.Name(), valueLabel(x)))
+			key := c.KeyAt(fn, fmt.Sprintf("%s() on %s in a type-switch default", com.Method.Name(), switchedLabel(x)))
 			if seen[key] {
 				continue
 			}
@@ -90,6 +164,16 @@ func ruleErr8(c *Ctx) {
 				continue
 			} else if why, ok := fieldAlwaysInitialised(c, x); ok {
 				c.Ok(key, c.Pos(in), why)
+				continue
+			} else if ia := elemLoadOf(x); ia != nil {
+				// an element of a slice: the same policy as for a parameter — report only with positive evidence
+				// that some element put into the slice (here, or by a caller that passes the slice) has a nil origin
+				ev, known := nilEvidenceInSlice(c, ia.X, 0, map[ssa.Value]bool{})
+				if ev == "" {
+					c.Ok(key, c.Pos(in), fmt.Sprintf("no value with a nil origin (nil constant or a callee returning one) is put into the slice: %d element sources examined here and at the call sites", known))
+					continue
+				}
+				c.Bad(key, c.Pos(in), "an element of the slice can be a nil interface ("+ev+") and reaches the default arm (no `case nil`, no nil test): the method call dereferences nil → internal Fatal Error")
 				continue
 			}
 			// a parameter whose callers cannot be shown to pass nil: report only with positive evidence of a nil
@@ -117,7 +201,7 @@ func ruleErr8(c *Ctx) {
 func nilCaseExcluded(x ssa.Value, at ssa.Instruction) bool {
 	for _, f := range core.FactsAt(at.Block()) {
 		v, neq, ok := core.NilCmp(f.Cond)
-		if ok && (v == x || core.SameCell(v, x)) && neq != f.Neg {
+		if ok && sameSwitched(v, x) && neq != f.Neg {
 			return true
 		}
 	}
@@ -247,7 +331,9 @@ func nilEvidence(c *Ctx, v ssa.Value, depth int, seen map[ssa.Value]bool) string
 		seen[o] = true
 		switch x := o.(type) {
 		case *ssa.Const:
-			if x.Value == nil {
+			// the nil interface only: the zero constant of a struct type also has no Value, and a typed nil
+			// pointer converted to the interface is not a nil interface
+			if _, isIface := x.Type().Underlying().(*types.Interface); isIface && x.Value == nil {
 				return "nil constant"
 			}
 		case *ssa.Call:
@@ -271,6 +357,64 @@ func nilEvidence(c *Ctx, v ssa.Value, depth int, seen map[ssa.Value]bool) string
 		}
 	}
 	return ""
+}
+
+// nilEvidenceInSlice: a description of a nil origin among the values put into slice s — by element stores,
+// composite literals and append in the function that builds it, followed through re-slicing, append chains and
+// parameters (to the slice each caller passes) — or "". Slices of other origin (fields, call results) and
+// elements never stored are taken as initialised. n counts the element sources examined.
+func nilEvidenceInSlice(c *Ctx, s ssa.Value, depth int, seen map[ssa.Value]bool) (ev string, n int) {
+	if depth > 4 {
+		return "", 0
+	}
+	for _, o := range core.Origins(s, true) {
+		if seen[o] {
+			continue
+		}
+		seen[o] = true
+		switch x := o.(type) {
+		case *ssa.Parameter:
+			fn := x.Parent()
+			idx := -1
+			for i, p := range fn.Params {
+				if p == x {
+					idx = i
+				}
+			}
+			for _, ed := range c.P.RealCallers(fn) {
+				if idx < 0 || ed.Site == nil || idx >= len(ed.Site.Common().Args) {
+					continue
+				}
+				e, k := nilEvidenceInSlice(c, ed.Site.Common().Args[idx], depth+1, seen)
+				n += k
+				if e != "" {
+					return "call at " + c.P.InstrPos(ed.Site) + ": " + e, n
+				}
+			}
+		case *ssa.Alloc, *ssa.MakeSlice:
+			elems, _ := localSliceElems(o)
+			for _, el := range elems {
+				n++
+				if e := nilEvidence(c, el, depth, seen); e != "" {
+					return "element stored in " + c.P.Name(o.(ssa.Instruction).Parent()) + ": " + e, n
+				}
+			}
+		case *ssa.Call:
+			if b, ok := x.Common().Value.(*ssa.Builtin); ok && b.Name() == "append" {
+				for _, a := range x.Common().Args {
+					if _, isSlice := a.Type().Underlying().(*types.Slice); !isSlice {
+						continue // append([]byte, string...)
+					}
+					e, k := nilEvidenceInSlice(c, a, depth, seen)
+					n += k
+					if e != "" {
+						return e, n
+					}
+				}
+			}
+		}
+	}
+	return "", n
 }
 
 func nilEvidenceAtCallers(c *Ctx, fn *ssa.Function, prm *ssa.Parameter, depth int, seen map[ssa.Value]bool) string {
@@ -298,20 +442,136 @@ func nilEvidenceAtCallers(c *Ctx, fn *ssa.Function, prm *ssa.Parameter, depth in
 	return ""
 }
 
-// nilEvidenceOfResult: some return of f yields a value with a nil origin as result #idx while its error result
-// (if any) is not certainly non-nil — a nil next to an error is not used by a caller that tests the error.
+// nilEvidenceOfResult: some return of f yields a value with a nil origin as result #idx while the result that
+// tells the caller whether the value is usable — a trailing error, or the bool of a comma-ok pair — does not
+// certainly say "unusable": a nil next to a non-nil error (incl. a sentinel) or next to `false` is not used by a
+// caller that tests it. `return val, err` after a switch that assigns both is judged arm by arm (the two φs of
+// the merge block are paired edge by edge), not as the product of all values with all errors.
 func nilEvidenceOfResult(c *Ctx, f *ssa.Function, idx int, depth int, seen map[ssa.Value]bool) string {
-	ei := core.ErrorResultIndex(f)
+	gi := core.ErrorResultIndex(f)
+	res := f.Signature.Results()
+	if gi < 0 && res.Len() == 2 {
+		if b, ok := res.At(1).Type().Underlying().(*types.Basic); ok && b.Kind() == types.Bool {
+			gi = 1
+		}
+	}
 	for _, r := range core.Returns(f) {
 		if idx >= len(r.Results) {
 			continue
 		}
-		if ei >= 0 && ei < len(r.Results) && ei != idx && core.ClassifyNil(r.Results[ei], r) == core.NonNil {
-			continue
+		var guard ssa.Value
+		if gi >= 0 && gi < len(r.Results) && gi != idx {
+			guard = r.Results[gi]
 		}
-		if ev := nilEvidence(c, r.Results[idx], depth+1, seen); ev != "" {
-			return c.P.Name(f) + " returns " + ev
+		if guard == nil && gi >= 0 && gi != idx && gi < len(r.Results) {
+			continue // zero value of a result cell: cannot pair; taken as a failure return
+		}
+		if core.ClassifyNil(r.Results[idx], r) == core.NonNil {
+			continue // `if p == nil { return nil, err }; return p, nil`: the nil origin of p does not reach this return
+		}
+		for _, pr := range pairCells(c, r.Results[idx], guard, r) {
+			if pr.guard != nil && saysUnusable(c, pr.guard, r) {
+				continue
+			}
+			if ev := nilEvidence(c, pr.val, depth+1, seen); ev != "" {
+				return c.P.Name(f) + " returns " + ev
+			}
 		}
 	}
 	return ""
+}
+
+type valGuard struct{ val, guard ssa.Value }
+
+// pairEdges splits (val, guard) into the pairs that can occur together: when both are φs of the same block the
+// i-th edges belong together (recursively); a φ next to a non-φ is paired with that one value.
+func pairEdges(val, guard ssa.Value, depth int) []valGuard {
+	vp, vok := val.(*ssa.Phi)
+	if !vok || depth > 6 {
+		return []valGuard{{val, guard}}
+	}
+	gp, gok := guard.(*ssa.Phi)
+	var out []valGuard
+	for i, e := range vp.Edges {
+		g := guard
+		if gok {
+			if gp.Block() != vp.Block() {
+				return []valGuard{{val, guard}}
+			}
+			g = gp.Edges[i]
+		} else if gi, isInstr := guard.(ssa.Instruction); isInstr && guard != nil && gi.Block() == vp.Block() {
+			return []valGuard{{val, guard}} // computed after the merge: no per-edge information
+		}
+		out = append(out, pairEdges(e, g, depth+1)...)
+	}
+	return out
+}
+
+// pairCells is pairEdges for a function whose locals stay in cells (go/ssa does not lift them when the function
+// defers): result = load of a local cell. Each store to the value cell is a candidate only if the return can be
+// reached from it without another store to that cell and — when the guard is a cell too — without a store that
+// makes the guard say "unusable" (`default: ok = false`).
+func pairCells(c *Ctx, val, guard ssa.Value, ret *ssa.Return) []valGuard {
+	cellOf := func(v ssa.Value) *ssa.Alloc {
+		if u, ok := v.(*ssa.UnOp); ok && u.Op == token.MUL {
+			if a, ok := u.X.(*ssa.Alloc); ok {
+				if _, complete := core.StoresTo(a); complete {
+					return a
+				}
+			}
+		}
+		return nil
+	}
+	vc := cellOf(val)
+	if vc == nil || vc.Parent() != ret.Parent() {
+		return pairEdges(val, guard, 0)
+	}
+	var gc *ssa.Alloc
+	if guard != nil {
+		gc = cellOf(guard)
+	}
+	var out []valGuard
+	for _, ref := range *vc.Referrers() {
+		st, ok := ref.(*ssa.Store)
+		if !ok || st.Addr != ssa.Value(vc) {
+			continue
+		}
+		stop := func(in ssa.Instruction) bool {
+			o, ok := in.(*ssa.Store)
+			if !ok || o == st {
+				return false
+			}
+			if o.Addr == ssa.Value(vc) {
+				return true
+			}
+			return gc != nil && o.Addr == ssa.Value(gc) && saysUnusable(c, o.Val, o)
+		}
+		if !core.Reachable(st, ret, stop) {
+			continue
+		}
+		g := guard
+		if gc != nil {
+			// `return a, b` of a deferring function stores both result cells in one block: pair those two values;
+			// otherwise the guard was judged by the reachability test above
+			g = nil
+			for _, in := range st.Block().Instrs {
+				if o, ok := in.(*ssa.Store); ok && o.Addr == ssa.Value(gc) {
+					g = o.Val
+				}
+			}
+		}
+		out = append(out, pairEdges(st.Val, g, 0)...)
+	}
+	return out
+}
+
+// saysUnusable: the guard result certainly tells the caller not to use the value (non-nil error / false).
+func saysUnusable(c *Ctx, g ssa.Value, at ssa.Instruction) bool {
+	if core.IsErrorType(g.Type()) {
+		return curErrKind(c, g, at) == core.NonNil
+	}
+	if k, ok := g.(*ssa.Const); ok && k.Value != nil && k.Value.Kind() == constant.Bool {
+		return !constant.BoolVal(k.Value)
+	}
+	return false
 }
